@@ -220,6 +220,7 @@ def solve_case(emit, cid, target, rng, sample):
         g0 = X.T @ (-(y) / norm(y))
     else:
         g0 = refdf.grad_w(X, y, w0, b0)
+    p0 = int(rng.choice([1, 2, 10]))        # also working sets smaller than the number of unpenalised features
     l1r = float(rng.choice([0.2, 0.6, 1.0]))
     gam = float(rng.choice([2.0, 5.0]))
     gw = rng.uniform(0.4, 2.0, size=len(groups))
@@ -263,15 +264,15 @@ def solve_case(emit, cid, target, rng, sample):
             warnings.simplefilter("ignore")
             if kind == "est":
                 if name == "Lasso":
-                    est, rp = E.Lasso(alpha=alpha, fit_intercept=icpt, max_epochs=5000, **kw), R.RefPenalty("l1", alpha=alpha)
+                    est, rp = E.Lasso(alpha=alpha, fit_intercept=icpt, max_epochs=5000, p0=p0, **kw), R.RefPenalty("l1", alpha=alpha)
                 elif name == "ElasticNet":
-                    est = E.ElasticNet(alpha=alpha, l1_ratio=l1r, fit_intercept=icpt, max_epochs=5000, **kw)
+                    est = E.ElasticNet(alpha=alpha, l1_ratio=l1r, fit_intercept=icpt, max_epochs=5000, p0=p0, **kw)
                     rp = R.RefPenalty("enet", alpha=alpha, l1_ratio=l1r)
                 elif name == "WeightedLasso":
-                    est = E.WeightedLasso(alpha=alpha, weights=wts.copy(), fit_intercept=icpt, max_epochs=5000, **kw)
+                    est = E.WeightedLasso(alpha=alpha, weights=wts.copy(), fit_intercept=icpt, max_epochs=5000, p0=p0, **kw)
                     rp = R.RefPenalty("wl1", alpha=alpha, weights=wts)
                 elif name == "MCPRegression":
-                    est = E.MCPRegression(alpha=alpha, gamma=gam, fit_intercept=icpt, max_epochs=5000, **kw)
+                    est = E.MCPRegression(alpha=alpha, gamma=gam, fit_intercept=icpt, max_epochs=5000, p0=p0, **kw)
                     rp = R.RefPenalty("mcp", alpha=alpha, gamma=gam)
                 elif name == "GroupLasso":
                     perm_groups = [[int(i) for i in G] for G in groups]
@@ -324,7 +325,7 @@ def solve_case(emit, cid, target, rng, sample):
                     df.initialize(Xin, y)
                 elif hasattr(df, "initialize_sparse") and hasattr(Xin, "indptr"):
                     df.initialize_sparse(Xin.data, Xin.indptr, Xin.indices, y)
-                skw = dict(tol=tol, fit_intercept=icpt, max_iter=300)
+                skw = dict(tol=tol, fit_intercept=icpt, max_iter=300, p0=p0)
                 if kind in ("AndersonCD", "GroupBCD", "MultiTaskBCD"):
                     skw["max_epochs"] = 5000
                 solver = getattr(S, kind)(**skw)
@@ -363,6 +364,12 @@ def solve_case(emit, cid, target, rng, sample):
         alpha_lo = crit * (1 - eps_below)
         coef2, full2, stop2, prob2 = fit(alpha_lo)
         conv2 = (stop2 is None) or (stop2 <= tol)
+        for side, st_ in (("above", stop), ("below", stop2)):
+            if st_ is not None and not st_ <= tol and np.isfinite(st_) and st_ > 1e-4:
+                # bounded progress: these are tiny convex-or-MCP problems with budgets 10-100x what they need
+                viols.append(dict(common, mechanism="does-not-converge-near-alpha_max", side=side, stop=float(st_),
+                                  detail="alpha = alpha_max*(1 %s eps): stop_crit=%.3g after the generous budget" % (
+                                      "+" if side == "above" else "-", st_)))
         if conv2:
             n_conv += 1
             if not np.any(coef2[pen_mask] != 0):
